@@ -65,6 +65,9 @@ def gen_function(world, contracts, externals, key):
         if c is not None:
             for (lab, ast, txt) in c['requires']:
                 V.add_hyp(ev0.boolean(ast))
+            for (lab, ast, txt) in c.get('entry') or []:
+                V.add_hyp(ev0.boolean(ast))
+                V.notes.append('entry assumption of %s, not checked at its call sites: [%s] %s' % (V.shown, lab or '', txt))
             if c.get('decreases') is not None:
                 V.entry_variant = ev0.ev(c['decreases'][0]).t
         # axioms of the function's own package are hypotheses; lemmas are proved on their own and are only
